@@ -2,6 +2,7 @@ package main
 
 import (
 	"go/ast"
+	"go/constant"
 	"go/token"
 	"go/types"
 	"strings"
@@ -163,6 +164,10 @@ func indexSwitches(body ast.Node) {
 // reachableAvoidingEdge reports whether target location is reachable from
 // entry when the edge (from -> from.Succs[succ]) is removed.
 func (f *FCFG) reachableAvoidingEdge(target Loc, from *cfg.Block, succ int) bool {
+	return f.reachableAvoidingEdgeBlocked(target, from, succ, nil)
+}
+
+func (f *FCFG) reachableAvoidingEdgeBlocked(target Loc, from *cfg.Block, succ int, blocked map[Loc]bool) bool {
 	n := len(f.G.Blocks)
 	seen := make([]bool, n)
 	st := []*cfg.Block{f.G.Blocks[0]}
@@ -170,8 +175,24 @@ func (f *FCFG) reachableAvoidingEdge(target Loc, from *cfg.Block, succ int) bool
 	for len(st) > 0 {
 		b := st[len(st)-1]
 		st = st[:len(st)-1]
+		// a blocked node inside b stops the path there (unless the target sits before it)
+		stopAt := len(b.Nodes)
+		if blocked != nil {
+			for i := range b.Nodes {
+				if blocked[Loc{b, i}] {
+					stopAt = i
+					break
+				}
+			}
+		}
 		if b == target.B {
-			return true
+			if target.I <= stopAt {
+				return true
+			}
+			continue
+		}
+		if stopAt < len(b.Nodes) {
+			continue
 		}
 		for i, s := range b.Succs {
 			if b == from && i == succ {
@@ -262,7 +283,137 @@ func factVariants(facts []Fact) []Fact {
 }
 
 func (f *FCFG) GuardsOfLoc(l Loc) []Fact {
-	return factVariants(f.expandOperandLocals(f.expandBoolLocals(f.guardsOfLoc(l))))
+	raw := f.guardsOfLoc(l)
+	raw = append(raw, f.correlatedFacts(l, raw)...)
+	return factVariants(f.expandOperandLocals(f.expandBoolLocals(raw)))
+}
+
+// correlatedFacts: a fact about a local that works as a verdict - `nr != nil`, `excluded`, `!found` - where
+// every OTHER assignment to that local stores the opposite constant (nil / false / true): the location is
+// then only reached on paths that avoid those resets, and whatever holds on all such paths holds here too.
+// (A helper that returns "the reader, or nil unless all of these conditions held" expands to exactly this.)
+// Resets are blocked wholesale, also those that could be followed by a new verdict in a later loop
+// iteration; the facts gained are therefore a slight over-statement inside loops and are only ADDED to
+// what the plain computation gives.
+func (f *FCFG) correlatedFacts(l Loc, raw []Fact) []Fact {
+	if f.Info == nil {
+		return nil
+	}
+	var out []Fact
+	seen := map[types.Object]bool{}
+	for _, fc := range raw {
+		if fc.Tag != nil {
+			continue
+		}
+		var v types.Object
+		want := ""
+		if e, isEq, isNil := nilTest(f.Info, fc.Expr); isNil {
+			if id, ok := ast.Unparen(e).(*ast.Ident); ok {
+				v = f.Info.ObjectOf(id)
+				if isEq == fc.Truth {
+					want = "nil"
+				} else {
+					want = "nonnil"
+				}
+			}
+		} else if id, ok := ast.Unparen(fc.Expr).(*ast.Ident); ok {
+			v = f.Info.ObjectOf(id)
+			if fc.Truth {
+				want = "true"
+			} else {
+				want = "false"
+			}
+		}
+		lv, isVar := v.(*types.Var)
+		if !isVar || lv.IsField() || seen[v] || (lv.Pkg() != nil && lv.Parent() == lv.Pkg().Scope()) {
+			continue
+		}
+		seen[v] = true
+		blocked := map[Loc]bool{}
+		satisfying := 0
+		classify := func(rhs ast.Expr) string {
+			if rhs == nil {
+				return "zero"
+			}
+			if isNilIdent(f.Info, rhs) {
+				return "nil"
+			}
+			if tv, ok := f.Info.Types[rhs]; ok && tv.Value != nil && tv.Value.Kind() == constant.Bool {
+				if constant.BoolVal(tv.Value) {
+					return "true"
+				}
+				return "false"
+			}
+			return "other"
+		}
+		opposite := func(kind string) bool {
+			switch want {
+			case "nonnil":
+				return kind == "nil" || kind == "zero"
+			case "nil":
+				return false
+			case "true":
+				return kind == "false" || kind == "zero"
+			case "false":
+				return kind == "true"
+			}
+			return false
+		}
+		ast.Inspect(f.Body, func(n ast.Node) bool {
+			if _, isLit := n.(*ast.FuncLit); isLit {
+				return false
+			}
+			switch y := n.(type) {
+			case *ast.AssignStmt:
+				for i, lh := range y.Lhs {
+					if id, ok := lh.(*ast.Ident); ok && f.Info.ObjectOf(id) == v {
+						var rhs ast.Expr
+						if len(y.Lhs) == len(y.Rhs) {
+							rhs = y.Rhs[i]
+						} else {
+							satisfying++
+							continue
+						}
+						if opposite(classify(rhs)) {
+							if loc, ok := f.Locate(y); ok {
+								blocked[loc] = true
+							}
+						} else {
+							satisfying++
+						}
+					}
+				}
+			case *ast.ValueSpec:
+				for i, nm := range y.Names {
+					if f.Info.Defs[nm] == v {
+						var rhs ast.Expr
+						if i < len(y.Values) {
+							rhs = y.Values[i]
+						}
+						if !opposite(classify(rhs)) {
+							satisfying++
+						}
+						// a zero-value declaration is where the variable starts: not a reset on a path
+					}
+				}
+			}
+			return true
+		})
+		if len(blocked) == 0 || satisfying == 0 {
+			continue
+		}
+		have := map[string]bool{}
+		for _, r := range raw {
+			have[r.String()] = true
+		}
+		for _, g := range f.guardsOfLocBlocked(l, blocked) {
+			if !have[g.String()] {
+				have[g.String()] = true
+				out = append(out, g)
+			}
+		}
+	}
+	return out
 }
 
 var operandCache = map[variantKey]*ast.BinaryExpr{}
@@ -410,7 +561,11 @@ func (f *FCFG) RawGuardsOf(n ast.Node) []Fact {
 	return f.guardsOfLoc(l)
 }
 
-func (f *FCFG) guardsOfLoc(l Loc) []Fact {
+func (f *FCFG) guardsOfLoc(l Loc) []Fact { return f.guardsOfLocBlocked(l, nil) }
+
+// guardsOfLocBlocked: the facts that hold on every path from the entry to l that does not execute any of
+// the blocked locations.
+func (f *FCFG) guardsOfLocBlocked(l Loc, blocked map[Loc]bool) []Fact {
 	indexSwitches(f.Body)
 	var facts []Fact
 	for _, b := range f.G.Blocks {
@@ -425,7 +580,7 @@ func (f *FCFG) guardsOfLoc(l Loc) []Fact {
 			if b.Succs[0] == b.Succs[1] {
 				continue
 			}
-			if !f.reachableAvoidingEdge(l, b, pol) {
+			if !f.reachableAvoidingEdgeBlocked(l, b, pol, blocked) {
 				truth := pol == 0
 				if tag != nil {
 					if truth {
